@@ -80,7 +80,10 @@ def correspond(ctx):
 
 def oracle_element(v, i, b):
     """The property on the implementation: returns None if it holds, else a description."""
-    r = impl_set(v, i, b)
+    try:
+        r = impl_set(v, i, b)
+    except Exception as ex:
+        return f"setting {FLAGS[i]}={b} on value {v} raises {ex!r}"
     if impl_get(r, i) != b:
         return f"read back {impl_get(r, i)} after setting {FLAGS[i]}={b} on value {v}"
     if (r ^ v) & ~MASKS[i] & 0xFFFF or not (0 <= r < 65536):
@@ -89,6 +92,13 @@ def oracle_element(v, i, b):
 
 
 def oracle_header_field(v, version="1.4"):
+    try:
+        return _oracle_header_field(v, version)
+    except Exception as ex:
+        return f"writing/reading a header whose field is {v:#06x} raises {ex!r}"
+
+
+def _oracle_header_field(v, version="1.4"):
     import laspy
     h = laspy.LasHeader(version=version, point_format=0)
     h.global_encoding.value = v
@@ -142,6 +152,40 @@ def oracle_objects(rng):
                 if val != v:
                     out.append(("flag changed by LasData operation", {"version": ver, "value": v, "where": nm}, f"field {nm} is {val:#06x}, was set to {v:#06x}"))
                     break
+    # every way a header gets written: LasData.write, laspy.open(mode='w') and the appender's header rewrite (laspy.open(mode='a'))
+    for ver, fmt in (("1.1", 0), ("1.2", 3), ("1.3", 4), ("1.4", 6), ("1.4", 1)):
+        for v0, i, bval in ((0x0000, rng.randrange(5), True), (0xFFFF, rng.randrange(5), False), (0xFFEF, 4, True), (rng.randrange(65536), rng.randrange(5), rng.random() < 0.5)):
+            try:
+                exp = (v0 | MASKS[i]) if bval else (v0 & ~MASKS[i])
+                h = laspy.LasHeader(version=ver, point_format=fmt)
+                h.global_encoding.value = v0
+                setattr(h.global_encoding, FLAGS[i], bval)
+                bio = io.BytesIO()
+                with laspy.open(bio, mode="w", header=h, closefd=False) as w:
+                    w.write_points(laspy.ScaleAwarePointRecord.zeros(2, header=h))
+                got = laspy.read(io.BytesIO(bio.getvalue())).header.global_encoding.value
+                if got != exp or int.from_bytes(bio.getvalue()[6:8], "little") != exp:
+                    out.append(("field lost through laspy.open(mode='w')", {"version": ver, "format": fmt, "value": v0, "flag": FLAGS[i], "target": bval},
+                                f"field {exp:#06x} was written/read back as {got:#06x}"))
+                # appender: the file holds v0; the flag is assigned on the appender's header, which is rewritten on close
+                h0 = laspy.LasHeader(version=ver, point_format=fmt)
+                h0.global_encoding.value = v0
+                bio = io.BytesIO()
+                with laspy.open(bio, mode="w", header=h0, closefd=False) as w:
+                    w.write_points(laspy.ScaleAwarePointRecord.zeros(1, header=h0))
+                bio.seek(0)
+                with laspy.open(bio, mode="a", closefd=False) as ap:
+                    if ap.header.global_encoding.value != v0:
+                        out.append(("appender header", {"version": ver, "value": v0}, f"the appender's header holds {ap.header.global_encoding.value:#06x}"))
+                    setattr(ap.header.global_encoding, FLAGS[i], bval)
+                    if rng.random() < 0.5:
+                        ap.append_points(laspy.ScaleAwarePointRecord.zeros(1, header=ap.header))
+                got = laspy.read(io.BytesIO(bio.getvalue())).header.global_encoding.value
+                if got != exp:
+                    out.append(("field lost through the appender's header rewrite", {"version": ver, "format": fmt, "file_value": v0, "flag": FLAGS[i], "target": bval},
+                                f"{FLAGS[i]}={bval} assigned on the appender's header ({v0:#06x} -> {exp:#06x}); the file read back holds {got:#06x}"))
+            except Exception as ex:
+                out.append(("writing a header raises", {"version": ver, "format": fmt, "value": v0, "flag": FLAGS[i], "target": bval}, repr(ex)))
     return out
 
 
